@@ -53,6 +53,20 @@ def main():
     pycommon.indent_skeleton(chk, o, 4 if chk.quick else 5, pycommon.CORE_OPTS, wall=120 if chk.quick else 1200)
     pycommon.indent_skeleton(chk, o, 2 if chk.quick else 3, pycommon.RICH_OPTS, wall=120 if chk.quick else 1500, label="rich")
     pycommon.k0_texts(chk, o, seeds.literal_product(), "literal evaluation product k=0", wall=150 if chk.quick else 600, vac=("SyntaxError",))
+    from symx import errseeds
+    ac = errseeds.after_constructs()
+    pycommon.k0_texts(chk, o, errseeds.spanning_errors(), "errors whose range spans a multi-line construct k=0", wall=120 if chk.quick else 600, vac=("SyntaxError",))
+    pycommon.k0_texts(chk, o, ac if not chk.quick else seeds.sample(chk.rng, ac, 700), "multi-line construct x filler x error line k=0", wall=150 if chk.quick else 900,
+                      vac=("SyntaxError",))
+    ee = errseeds.eval_errors()
+
+    def tfe(ex):
+        return ee[harness.choose_index(ex, "e", len(ee))]
+    chk.run("eval-mode errors behind leading white space k=0", harness.A_harness(tfe, path_oracles=o), f"{len(ee)} (lead, expression error) texts in eval mode",
+            wall=120 if chk.quick else 600, vacuity=("SyntaxError",))
+    for l in range(1, L + 1):
+        chk.run(f"A-full parse eval L={l}", harness.A_harness(lambda ex, l=l: chars.sym_text(ex, "c", l), mode="eval", path_oracles=o),
+                f"all strings over R of length {l}, eval mode", vacuity=("SyntaxError",))
     cut_src = [s for s in LAYOUT_ERR_SEEDS if len(s) < 120] + cut_src
     ml = pycommon.relayout_multiline([s for s in py if len(s) < 120] + seeds.sample(chk.rng, seeds.expr_product(), 150 if chk.quick else 1500))
     chk.extra["multiline_relayouts"] = len(ml)
